@@ -154,22 +154,27 @@ var errVxFault = errors.New("verif: injected storage fault")
 // deterministic) and fails the operation whose index equals failAt, once.
 type vxFaultStorage struct {
 	logical.Storage
-	mu     sync.Mutex
-	armed  bool
-	gid    int64
-	count  int
-	failAt int // 1-based; 0 = count only
-	fired  bool
-	log    []string // "kind key" of counted ops
+	mu      sync.Mutex
+	armed   bool
+	gid     int64
+	count   int
+	failAt  int    // 1-based index of the operation to fail; 0 = none
+	target  string // "kind key-prefix": fail the targetN-th operation matching it ("" = none)
+	targetN int
+	seen    int
+	crash   bool // once the fault fired, every further counted operation fails too (until disarmed)
+	fired   bool
+	log     []string // "kind key" of counted ops; the failed one carries the suffix " FAULT"
 }
 
 func (f *vxFaultStorage) arm(failAt int) {
 	f.mu.Lock()
 	f.armed, f.gid, f.count, f.failAt, f.fired, f.log = true, verifx.GoID(), 0, failAt, false, nil
+	f.target, f.targetN, f.seen, f.crash = "", 0, 0, false
 	f.mu.Unlock()
 }
 
-// disarm returns the counted operations, whether the fault fired, and the op that was failed.
+// disarm returns the counted operations and whether the fault fired.
 func (f *vxFaultStorage) disarm() (ops []string, fired bool) {
 	f.mu.Lock()
 	defer f.mu.Unlock()
@@ -184,12 +189,26 @@ func (f *vxFaultStorage) step(kind, key string) error {
 		return nil
 	}
 	f.count++
-	f.log = append(f.log, kind+" "+key)
-	if f.failAt != 0 && f.count == f.failAt && !f.fired {
+	op := kind + " " + key
+	if f.fired {
+		if f.crash {
+			f.log = append(f.log, op+" (after crash)")
+			return errVxFault
+		}
+		f.log = append(f.log, op)
+		return nil
+	}
+	hit := f.failAt != 0 && f.count == f.failAt
+	if f.target != "" && strings.HasPrefix(op, f.target) {
+		f.seen++
+		hit = hit || f.seen == f.targetN
+	}
+	if hit {
 		f.fired = true
-		f.log[len(f.log)-1] += " FAULT"
+		f.log = append(f.log, op+" FAULT")
 		return errVxFault
 	}
+	f.log = append(f.log, op)
 	return nil
 }
 
